@@ -62,6 +62,20 @@ def floatPart (d s : Nat) (p : Nat) : Nat :=
     relates to the exact value -/
 def exactPart (d s : Nat) (p : Nat) : Nat := (2 * d * p + s) / (2 * s)
 
+/-- decidable form of the hypothesis of `c14_rate_mono`, evaluated by the driver -/
+def antitoneAlong (part : Nat → Nat) : List Nat → Bool
+  | [] => true
+  | p :: ps => ps.all (fun q => part q ≤ part p) && antitoneAlong part ps
+
+/-- decidable form of "`part p` is within 1/2 of `d*p/s`" (hypothesis of the n/2 bound) -/
+def nearHalf (d s : Nat) (part : Nat → Nat) (p : Nat) : Bool :=
+  2 * s * part p ≤ 2 * d * p + s && 2 * d * p ≤ 2 * s * part p + s
+
+/-- both float hypotheses of C14 on one call -/
+def floatHypsHold (ps : List Nat) (d : Nat) : Bool :=
+  let s := sumPriorities ps
+  antitoneAlong (floatPart d s) ps && ps.all (nearHalf d s (floatPart d s))
+
 def rate (ps : List Nat) (d : Nat) (m : Dist) : Dist :=
   rateWith (floatPart d (sumPriorities ps)) ps d m
 
